@@ -43,6 +43,7 @@ type Reply struct {
 	Res   []int  `json:"res"`
 	Names bool   `json:"names"`
 	Inner []int  `json:"inner"`
+	Seen  [][][][]int `json:"seen"` // what the OTHER method's MCalls() showed inside each invocation of the re-entrant function
 }
 type FwdEntry struct {
 	M    string  `json:"m"`
@@ -60,6 +61,7 @@ type Event struct {
 	Fnil  map[string]bool       `json:"fnil"`
 	By    map[string][][][]int  `json:"by"`
 	Snaps []Snap                `json:"snaps"`
+	Xlog  [][][]int             `json:"xlog"`
 	After [][]int               `json:"after"`
 	AfterBy map[string][][]int  `json:"afterby,omitempty"`
 	Types string                `json:"types,omitempty"`
@@ -82,6 +84,7 @@ type Case struct {
 	Init  map[string]string `json:"init"`
 	Inner [][]int           `json:"inner"`
 	ByArgs map[string][][]int `json:"byargs"`
+	XArgs  [][]int            `json:"xargs"`
 	Ops   []Event           `json:"ops"`
 }
 type Plan struct {
@@ -110,6 +113,11 @@ func (e codeErr) Error() string { return fmt.Sprintf("e%d", int(e)) }
 
 var errType = reflect.TypeOf((*error)(nil)).Elem()
 
+// codeNamer satisfies any interface{ Name() int } declared by the generated world
+type codeNamer int
+
+func (n codeNamer) Name() int { return int(n) }
+
 func encode(t reflect.Type, code int) reflect.Value {
 	v := reflect.New(t).Elem()
 	if code == 0 {
@@ -127,6 +135,8 @@ func encode(t reflect.Type, code int) reflect.Value {
 	case reflect.Interface:
 		if t == errType || t.NumMethod() > 0 && reflect.TypeOf(codeErr(0)).Implements(t) {
 			v.Set(reflect.ValueOf(codeErr(code)))
+		} else if t.NumMethod() > 0 && reflect.TypeOf(codeNamer(0)).Implements(t) {
+			v.Set(reflect.ValueOf(codeNamer(code)))
 		} else {
 			v.Set(reflect.ValueOf(code))
 		}
@@ -144,6 +154,22 @@ func encode(t reflect.Type, code int) reflect.Value {
 		m := reflect.MakeMap(t)
 		m.SetMapIndex(encode(t.Key(), 1), encode(t.Elem(), code))
 		v.Set(m)
+	case reflect.Array:
+		for i := 0; i < t.Len(); i++ {
+			v.Index(i).Set(encode(t.Elem(), code))
+		}
+	case reflect.Func: // a function returning the code
+		v.Set(reflect.MakeFunc(t, func([]reflect.Value) []reflect.Value {
+			out := make([]reflect.Value, t.NumOut())
+			for i := range out {
+				out[i] = encode(t.Out(i), code)
+			}
+			return out
+		}))
+	case reflect.Chan: // a channel holding the code
+		c := reflect.MakeChan(t, 1)
+		c.Send(encode(t.Elem(), code))
+		v.Set(c)
 	default:
 		panic("matryerdrv: cannot encode type " + t.String())
 	}
@@ -206,6 +232,9 @@ func decode(v reflect.Value) (code int) {
 		if ce, ok := e.Interface().(codeErr); ok {
 			return int(ce)
 		}
+		if cn, ok := e.Interface().(codeNamer); ok {
+			return int(cn)
+		}
 		if e.Kind() == reflect.Int {
 			return int(e.Int())
 		}
@@ -224,6 +253,23 @@ func decode(v reflect.Value) (code int) {
 			return undecodable
 		}
 		return decode(v.MapIndex(v.MapKeys()[0]))
+	case reflect.Array:
+		if v.Len() == 0 {
+			return undecodable
+		}
+		return decode(v.Index(0))
+	case reflect.Func:
+		if v.Type().NumIn() != 0 || v.Type().NumOut() != 1 {
+			return undecodable
+		}
+		return decode(v.Call(nil)[0])
+	case reflect.Chan:
+		x, ok := v.TryRecv()
+		if !ok {
+			return undecodable
+		}
+		v.Send(x)
+		return decode(x)
 	}
 	return undecodable
 }
@@ -280,6 +326,7 @@ type replay struct {
 	c      *Case
 	fwd    []FwdEntry
 	inner  []int
+	seen   [][][][]int
 	depth  int
 	broken string // non-empty: the mock lacks something the driver needs (reported in the event)
 	raw      map[string]reflect.Value // what the MCalls() accessors returned in the last observation
@@ -294,14 +341,17 @@ type replay struct {
 // in-package mocks, whose methods may be unexported) = method expressions generated next to the mock.
 type entry struct {
 	mk    func() interface{}
-	names [2]string
+	names [3]string // concrete names of A, B and the third method X
 	shim  map[string]interface{}
 }
 
 // concrete name of abstract method m ("A"/"B")
 func (r *replay) mname(m string) string {
-	if m == "B" {
+	switch m {
+	case "B":
 		return r.ent.names[1]
+	case "X":
+		return r.ent.names[2]
 	}
 	return r.ent.names[0]
 }
@@ -352,9 +402,9 @@ func (r *replay) method(role string) (reflect.Value, bool) {
 	} else {
 		name := role
 		switch {
-		case role == "A" || role == "B":
+		case role == "A" || role == "B" || role == "X":
 			name = r.mname(role)
-		case role == "ACalls" || role == "BCalls":
+		case role == "ACalls" || role == "BCalls" || role == "XCalls":
 			name = r.mname(role[:1]) + "Calls"
 		case role == "ResetACalls" || role == "ResetBCalls":
 			name = "Reset" + r.mname(role[5:6]) + "Calls"
@@ -384,6 +434,11 @@ func (r *replay) makeFunc(m, f string) reflect.Value {
 		case "FP":
 			panic(fpPanic{})
 		case "FR":
+			if cm, ok := r.method("BCalls"); ok { // the other method's records must be readable from inside the function
+				r.seen = append(r.seen, r.project("B", cm.Call(nil)[0]))
+			} else {
+				r.seen = append(r.seen, [][][]int{{{undecodable}}})
+			}
 			if r.depth == 0 {
 				r.depth++
 				rep, _ := r.call(m, r.c.Inner)
@@ -570,6 +625,14 @@ func (r *replay) observe(e *Event) {
 	}
 }
 
+// xlog: the records of the third method X, which no operation of the history calls
+func (r *replay) xlog() [][][]int {
+	if cm, ok := r.method("XCalls"); ok && cm.Type().NumIn() == 0 && cm.Type().NumOut() == 1 {
+		return r.project("X", cm.Call(nil)[0])
+	}
+	return [][][]int{{{undecodable}}}
+}
+
 // snapshots: re-inspect every retained MCalls() result after the operation, then retain the results of this
 // operation's reads for every method whose log the operation changed to something non-empty
 // (the same rule as MatryerMockContract!SnapsAfter, applied to the observed logs).
@@ -623,6 +686,17 @@ func norm(e *Event) {
 	if e.After == nil {
 		e.After = [][]int{}
 	}
+	if e.Xlog == nil {
+		e.Xlog = [][][]int{}
+	}
+	if e.Reply.Seen == nil {
+		e.Reply.Seen = [][][][]int{}
+	}
+	for a := range e.Reply.Seen {
+		if e.Reply.Seen[a] == nil {
+			e.Reply.Seen[a] = [][][]int{}
+		}
+	}
 	for i := range e.After {
 		if e.After[i] == nil {
 			e.After[i] = []int{}
@@ -674,6 +748,7 @@ func (r *replay) step(x *Event) Event {
 	e := Event{Op: x.Op, M: x.M, F: x.F, Args: x.Args, Reply: Reply{Kind: "ret", Res: []int{}, Inner: []int{}}}
 	r.fwd = nil
 	r.inner = nil
+	r.seen = nil
 	switch x.Op {
 	case "setfunc":
 		r.setFunc(x.M, x.F)
@@ -681,6 +756,9 @@ func (r *replay) step(x *Event) Event {
 		e.Reply, e.After = r.call(x.M, x.Args)
 		if r.inner != nil {
 			e.Reply.Inner = r.inner
+		}
+		if e.Reply.Kind != "panic" || r.seen != nil {
+			e.Reply.Seen = r.seen
 		}
 	case "resetm", "resetall":
 		name := "ResetCalls"
@@ -703,6 +781,7 @@ func (r *replay) step(x *Event) Event {
 	e.Fwd = r.fwd
 	r.observe(&e)
 	r.snapshots(&e)
+	e.Xlog = r.xlog()
 	if r.by != nil {
 		var be Event
 		r.by.observe(&be)
@@ -822,13 +901,15 @@ func main() {
 							r.by.setFunc(m, "F2")
 							r.by.call(m, c.ByArgs[m])
 						}
+						r.setFunc("X", "F2")
+						r.call("X", c.XArgs)
 						evs := make([]Event, 0, len(c.Ops)+1)
 						o := c.Opt
 						var be Event
 						r.by.observe(&be)
 						evs = append(evs, Event{Op: "reset", Case: int(id), Sig: c.Sig, Opt: &o, Init: c.Init,
 							Logs: map[string][][][]int{"A": {}, "B": {}}, Fnil: map[string]bool{"A": true, "B": true},
-							By: be.Logs, Types: types})
+							By: be.Logs, Types: types, Xlog: r.xlog()})
 						norm(&evs[0])
 						// abstraction table check: the positions the TLA+ table calls reference-like are exactly those
 						// whose real parameter type is a slice, map, pointer, chan or func
